@@ -214,6 +214,7 @@ type qrec struct {
 type policy struct {
 	now, delay, batch, twice, unknown, junk, never int // weights
 	maxDelay                                       time.Duration
+	minDelay                                       time.Duration // added to every delayed answer
 	bigAnswers                                     bool
 	authJunk                                       bool // junk may include an unsolicited tcp.authentificationNonce
 }
@@ -464,7 +465,7 @@ func (s *srvState) serve(p *adnl.Peer) {
 			wires = [][]byte{s.answerFor(rec, query)}
 		case "delay":
 			wires = [][]byte{s.answerFor(rec, query)}
-			delay = time.Duration(s.rng.Intn(int(s.pol.maxDelay)))
+			delay = s.pol.minDelay + time.Duration(s.rng.Intn(int(s.pol.maxDelay)))
 		case "twice":
 			wires = [][]byte{s.answerFor(rec, query), s.answerFor(rec, query)}
 			if s.rng.Bool() {
@@ -1024,6 +1025,41 @@ func scenarioMix(e *env) {
 	e.judge(map[string]bool{"fault-free": true})
 }
 
+// slow: the server answers every query, but only after more than tongo's 10 s
+// silence window; meanwhile the connection carries nothing but pings and
+// pongs. The statement lets the server delay its answers however it likes:
+// every call must still return its own answer (client timeout 16 s), over the
+// sessions that were there from the start.
+func scenarioSlow(e *env) {
+	workers := e.rng.Range(1, 2)
+	pol := policy{delay: 1, minDelay: time.Duration(e.rng.Range(10800, 11800)) * time.Millisecond, maxDelay: 300 * time.Millisecond}
+	g, per := e.rng.Range(1, 3), 1
+	e.wit["goroutines"], e.wit["workers_per_connection"], e.wit["calls_per_goroutine"], e.wit["policy"] = g, workers, per, fmt.Sprintf("%+v", pol)
+	if !e.setup(pol, workers, 16*time.Second) {
+		return
+	}
+	e.runCallers(g, per, "fault-free", 0)
+	e.w.Seen("shapes", fmt.Sprintf("slow/g=%d/w=%d", g, workers))
+	e.judge(map[string]bool{"fault-free": true})
+	e.w.Seen("slow_sessions_accepted_minus_connections", fmt.Sprint(int(e.srv.Accepted.Load())-workers))
+	// the server never closed anything and produced an answer for every query within the client's
+	// timeout: a call that failed anyway lost its answer on the client side (whether or not the
+	// server's write still found an open socket)
+	if e.worstSince(e.start) < time.Second {
+		e.mu.Lock()
+		for _, c := range e.calls {
+			if c.done.Load() && !c.ok {
+				e.w.Violation("call-failed@slow-answer/healthy-server/"+c.errCls, e.witness(map[string]any{"key": c.key, "error_class": c.errCls,
+					"took_ms": c.t1.Sub(c.t0).Milliseconds(), "sessions_accepted": e.srv.Accepted.Load(), "connections": workers}))
+				break
+			}
+		}
+		e.mu.Unlock()
+	} else {
+		e.w.Inconclusive("slow-answer scenario on a stalled machine")
+	}
+}
+
 // deadline: a share of the queries is never answered; those calls must come
 // back with an error by timeout + slack, the others with their own answer.
 func scenarioDeadline(e *env) {
@@ -1498,6 +1534,8 @@ func runScenario(w *mon.Worker) {
 		scenarioGrowth(e)
 	case "directed":
 		scenarioAuthNonce(e)
+	case "slow":
+		scenarioSlow(e)
 	default:
 		w.HarnessError("unknown scenario " + sc.Kind)
 	}
@@ -1609,6 +1647,7 @@ func main() {
 		}
 	}
 	// reconnect scenarios first: they are the long ones (tongo's 3 s ping / 1 s retry timers)
+	add("slow", R.N(1, 6))
 	add("reconnect", R.N(4, 40))
 	add("directed", R.N(1, 2))
 	add("growth", R.N(1, 10))
